@@ -354,4 +354,132 @@ Proof.
     rewrite (idxf_bias p H). pose proof (pos_of_in p _ H). simpl. split; [reflexivity|lia].
 Qed.
 
+
+Lemma passthru_ok {A B} (r : res A) (k : A -> res B) (b : B) :
+  passthru r k = Ok b -> exists a, r = Ok a /\ k a = Ok b.
+Proof. destruct r; simpl; intros H; try discriminate. eauto. Qed.
+
+Theorem fast_of_net_translated : exists fn, fast_of_net Rnum n = Ok fn /\ translated n fn idxf.
+Proof.
+  destruct (process_list_spec n N order 0 (repeat 0%Z N) [] order_nodup) as (a4 & k4 & E & LA & A & K1 & _).
+  { rewrite order_length. lia. }
+  { apply repeat_length. }
+  unfold order in E at 1. rewrite process_list_app in E.
+  apply passthru_ok in E. destruct E as ([[i1 a1] k1] & E1 & E).
+  rewrite process_list_app in E. apply passthru_ok in E. destruct E as ([[i2 a2] k2] & E2 & E).
+  rewrite process_list_app in E. apply passthru_ok in E. destruct E as ([[i3 a3] k3] & E3 & E).
+  assert (LK : forall q, q < N -> find_idx k4 q = Some (idxf q)).
+  { intros q Hq. rewrite K1 by (apply order_in; exact Hq). reflexivity. }
+  pose proof (positions_with_nodup is_input) as NDI.
+  pose proof (positions_with_nodup is_hidden) as NDH.
+  assert (HltI : forall p, In p (positions_with n is_input) -> p < N) by (intros p Hp; apply in_positions_with in Hp; tauto).
+  assert (HltH : forall p, In p (positions_with n is_hidden) -> p < N) by (intros p Hp; apply in_positions_with in Hp; tauto).
+  assert (HltO : forall p, In p (outputs n) -> p < N) by (intros p Hp; apply outs_exact in Hp; tauto).
+  destruct (proc_incoming_spec n idxf k4 LK idxf_lt idxf_inj OK (positions_with n is_input) (repeat 0%R N) [] NDI HltI)
+    as (b1 & P1 & L1 & O1 & V1); [apply repeat_length|].
+  destruct (proc_incoming_spec n idxf k4 LK idxf_lt idxf_inj OK (positions_with n is_hidden) b1
+              ([] ++ flat_map (node_conns n idxf) (positions_with n is_input)) NDH HltH L1)
+    as (b2 & P2 & L2 & O2 & V2).
+  destruct (proc_incoming_spec n idxf k4 LK idxf_lt idxf_inj OK (outputs n) b2
+              (([] ++ flat_map (node_conns n idxf) (positions_with n is_input)) ++
+               flat_map (node_conns n idxf) (positions_with n is_hidden)) outs_nodup HltO L2)
+    as (b3 & P3 & L3 & O3 & V3).
+  set (conns := (([] ++ flat_map (node_conns n idxf) (positions_with n is_input)) ++
+                 flat_map (node_conns n idxf) (positions_with n is_hidden)) ++
+                flat_map (node_conns n idxf) (outputs n)) in *.
+  assert (Hconns : conns = flat_map (node_conns n idxf)
+                             (positions_with n is_input ++ positions_with n is_hidden ++ outputs n)).
+  { unfold conns. simpl. rewrite !flat_map_app, app_assoc. reflexivity. }
+  set (targets := positions_with n is_input ++ positions_with n is_hidden ++ outputs n) in *.
+  assert (NDT : NoDup targets).
+  { unfold targets. repeat apply nodup_app; try assumption.
+    - intros x Hx Hy. apply in_positions_with in Hx. apply outs_exact in Hy.
+      destruct Hx as [_ Hx], Hy as [_ Hy]. destruct (role_at n x); discriminate.
+    - intros x Hx Hy. apply in_positions_with in Hx. destruct Hx as [_ Hx].
+      apply in_app_or in Hy. destruct Hy as [Hy|Hy].
+      + apply in_positions_with in Hy. destruct Hy as [_ Hy]. destruct (role_at n x); discriminate.
+      + apply outs_exact in Hy. destruct Hy as [_ Hy]. destruct (role_at n x); discriminate. }
+  assert (HltT : forall p, In p targets -> p < N).
+  { unfold targets. intros p Hp. apply in_app_or in Hp. destruct Hp as [Hp|Hp]; [auto|].
+    apply in_app_or in Hp. destruct Hp as [Hp|Hp]; auto. }
+  assert (Hconn_range : forall c, In c conns -> fl_src c < N /\ fl_tgt c < N).
+  { intros c Hc. rewrite Hconns in Hc. apply in_flat_map in Hc. destruct Hc as (p & Hp & Hc).
+    unfold node_conns in Hc. apply in_map_iff in Hc. destruct Hc as (l & <- & Hl).
+    apply filter_In in Hl. destruct Hl as [Hl _]. simpl. split.
+    - apply idxf_lt. exact (net_ok_src n OK p l (HltT p Hp) Hl).
+    - apply idxf_lt. apply HltT. exact Hp. }
+  (* the translation succeeds *)
+  unfold fast_of_net. rewrite E1, E2, E3, E. change (fzero Rnum) with 0%R. rewrite P1, P2, P3.
+  unfold new_fast.
+  assert (Hcheck : ((length (positions_with n is_bias) + length (positions_with n is_input) + length (outputs n) <=? N)
+                    && (length a4 =? N) && (length b3 =? N)
+                    && forallb (fun c => (fl_src c <? N) && (fl_tgt c <? N)) conns) = true).
+  { pose proof lengths_sum as LS. rewrite !andb_true_iff. repeat split.
+    - apply Nat.leb_le. lia.
+    - apply Nat.eqb_eq. exact LA.
+    - apply Nat.eqb_eq. exact L3.
+    - apply forallb_forall. intros c Hc. destruct (Hconn_range c Hc) as [C1 C2].
+      apply andb_true_iff. split; apply Nat.ltb_lt; assumption. }
+  rewrite Hcheck. eexists. split; [reflexivity|].
+  pose proof lengths_sum as LS.
+  (* neurons are among the targets *)
+  assert (Hneuron : forall p, p < N -> neuronb n p = true -> In p targets).
+  { intros p Hp Hn. unfold targets, neuronb in *. rewrite !in_app_iff, !in_positions_with, outs_exact.
+    destruct (role_at n p); simpl in *; try discriminate; tauto. }
+  assert (Hbias_val : forall p, In p targets -> nth (idxf p) b3 0%R = node_bias n p 0%R).
+  { intros p Hp. unfold targets in Hp. apply in_app_or in Hp.
+    assert (Hrep : forall j, nth j (repeat 0%R N) 0%R = 0%R) by (intros j; apply nth_repeat).
+    assert (Hdisj : forall q l, In p l -> In q l -> idxf q <> idxf p -> q <> p) by (intros; congruence).
+    destruct Hp as [Hp|Hp]; [|apply in_app_or in Hp; destruct Hp as [Hp|Hp]].
+    - (* input node: touched by the first call only *)
+      rewrite O3, O2, V1, Hrep; [reflexivity|exact Hp| |].
+      + intros q Hq E'. apply idxf_inj in E'; [|auto|auto]. subst q.
+        apply in_positions_with in Hp. apply in_positions_with in Hq.
+        destruct Hp as [_ Hp], Hq as [_ Hq]. destruct (role_at n p); discriminate.
+      + intros q Hq E'. apply idxf_inj in E'; [|auto|auto]. subst q.
+        apply in_positions_with in Hp. apply outs_exact in Hq.
+        destruct Hp as [_ Hp], Hq as [_ Hq]. destruct (role_at n p); discriminate.
+    - rewrite O3, V2, O1, Hrep; [reflexivity| |exact Hp|].
+      + intros q Hq E'. apply idxf_inj in E'; [|auto|auto]. subst q.
+        apply in_positions_with in Hp. apply in_positions_with in Hq.
+        destruct Hp as [_ Hp], Hq as [_ Hq]. destruct (role_at n p); discriminate.
+      + intros q Hq E'. apply idxf_inj in E'; [|auto|auto]. subst q.
+        apply in_positions_with in Hp. apply outs_exact in Hq.
+        destruct Hp as [_ Hp], Hq as [_ Hq]. destruct (role_at n p); discriminate.
+    - rewrite V3, O2, O1, Hrep; [reflexivity| | |exact Hp].
+      + intros q Hq E'. apply idxf_inj in E'; [|auto|auto]. subst q.
+        apply outs_exact in Hp. apply in_positions_with in Hq.
+        destruct Hp as [_ Hp], Hq as [_ Hq]. destruct (role_at n p); discriminate.
+      + intros q Hq E'. apply idxf_inj in E'; [|auto|auto]. subst q.
+        apply outs_exact in Hp. apply in_positions_with in Hq.
+        destruct Hp as [_ Hp], Hq as [_ Hq]. destruct (role_at n p); discriminate. }
+  constructor; simpl.
+  - reflexivity.
+  - exact LA.
+  - exact L3.
+  - unfold f_sensor. simpl. lia.
+  - reflexivity.
+  - exact idxf_lt.
+  - exact idxf_inj.
+  - exact idxf_surj.
+  - intros p Hp. unfold f_sensor. simpl. apply idxf_sensor. exact Hp.
+  - intros p Hp. apply idxf_isbias. exact Hp.
+  - intros p Hp. specialize (A (idxf p)). simpl in A. rewrite A.
+    pose proof (idxf_lt p Hp) as Hl. rewrite order_length.
+    destruct (idxf p <? N) eqn:E'; [|apply Nat.ltb_ge in E'; lia]. simpl. rewrite Nat.sub_0_r.
+    unfold idxf. destruct (pos_of_in p order) as [_ G]; [apply order_in; exact Hp|]. now rewrite G.
+  - intros p Hp Hn. rewrite Hconns.
+    apply (filter_flat_map_unique (@fl_tgt R) (node_conns n idxf) idxf targets p NDT (Hneuron p Hp Hn)).
+    + intros q c Hc. unfold node_conns in Hc. apply in_map_iff in Hc. destruct Hc as (l & <- & _). reflexivity.
+    + intros q Hq E'. apply idxf_inj; auto.
+  - intros p Hp Hn. apply Hbias_val. apply Hneuron; assumption.
+  - intros i Hi. unfold f_sensor. simpl.
+    assert (Ho : In (nth i (outputs n) 0) (outputs n)) by (apply nth_In; exact Hi).
+    rewrite (idxf_output _ Ho), (pos_of_nth _ outs_nodup i Hi). lia.
+  - intros i Hi.
+    assert (Ho : In (nth i (positions_with n is_input) 0) (positions_with n is_input)) by (apply nth_In; exact Hi).
+    rewrite (idxf_input _ Ho), (pos_of_nth _ NDI i Hi). reflexivity.
+  - reflexivity.
+Qed.
+
 End Assemble.
